@@ -118,15 +118,19 @@ bool model_enabled(const std::vector<Rule> &rules, bool dflt, const Ident &i, in
     if (rule_matches(r, i, signal)) return r.enable;  // first match wins
   return dflt;
 }
+// Rule names are handed to the builder in exact-size heap blocks that are overwritten as soon as the call
+// returns and stay allocated until the execution ends: a configurator that kept the caller's view instead
+// of a copy shows up as a rule that no longer matches (deterministic, no undefined behaviour).
+std::vector<std::unique_ptr<vfq::HeapStr>> g_rule_names;
 template <class Config>
 std::unique_ptr<ScopeConfigurator<Config>> build_configurator(const std::vector<Rule> &rules, bool dflt) {
   typename ScopeConfigurator<Config>::Builder b(dflt ? Config::Enabled() : Config::Disabled());
   for (auto &r : rules) {
     Config cfg = r.enable ? Config::Enabled() : Config::Disabled();
     if (r.matcher == 0) {
-      vfq::HeapStr n(r.name);  // the builder must keep its own copy of the name
-      b.AddConditionNameEquals(n.view(), cfg);
-      n.scribble();
+      g_rule_names.emplace_back(new vfq::HeapStr(r.name));
+      b.AddConditionNameEquals(g_rule_names.back()->view(), cfg);
+      g_rule_names.back()->scribble();
     } else if (r.matcher == 1) b.AddCondition([](const InstrumentationScope &s) { return s.GetVersion() == "2.0"; }, cfg);
     else b.AddCondition([](const InstrumentationScope &s) { return s.GetAttributes().count("tier") > 0; }, cfg);
   }
@@ -232,10 +236,19 @@ void run_configurator(vf::Ctx &c) {
   for (auto &s : got) g += s + " ";
   for (auto &s : want) w += s + " ";
   if (got != want) {
-    // name what is wrong: telemetry of a disabled scope arrived / telemetry of an enabled scope is missing / wrong identity
-    for (auto &s : got)
-      if (!std::binary_search(want.begin(), want.end(), s)) c.fail(std::string("C19:scope:") + kSignal[signal] + ":disabled-scope-produced-telemetry-or-wrong-identity", desc + ": arrived {" + g + "} expected {" + w + "}");
-    c.fail(std::string("C19:scope:") + kSignal[signal] + ":enabled-scope-lost-telemetry", desc + ": arrived {" + g + "} expected {" + w + "}");
+    // name what is wrong: telemetry of a disabled scope arrived / arrived twice / carries another identity / is missing
+    auto tag = [](const std::string &item) { return item.substr(item.rfind('#')); };
+    std::string ctx = desc + ": arrived {" + g + "} expected {" + w + "}";
+    for (size_t i = 0; i < got.size(); ++i) {
+      if (std::binary_search(want.begin(), want.end(), got[i])) {
+        if (i > 0 && got[i - 1] == got[i]) c.fail(std::string("C19:scope:") + kSignal[signal] + ":telemetry-duplicated", ctx);
+        continue;
+      }
+      bool tag_wanted = false;
+      for (auto &x : want) tag_wanted |= tag(x) == tag(got[i]);
+      c.fail(std::string("C19:scope:") + kSignal[signal] + (tag_wanted ? ":wrong-scope-identity" : ":disabled-scope-produced-telemetry"), ctx);
+    }
+    c.fail(std::string("C19:scope:") + kSignal[signal] + ":enabled-scope-lost-telemetry", ctx);
   }
   // the configuration is computed once per scope: asking again gives the same object, in the same state
   c.stage("re-request");
@@ -325,6 +338,7 @@ void run_identity(vf::Ctx &c) {
 }
 
 void run(vf::Ctx &c) {
+  g_rule_names.clear();
   if (c.pick("part", 2) == 0) run_configurator(c);
   else run_identity(c);
 }
